@@ -613,6 +613,14 @@ upipe_h265f_stream_parse_short_term_ref_pic_set(struct ubuf_block_stream *s,
             }
         }
 
+        /* the pictures of the new set must fit into the arrays */
+        uint32_t num_pics = 0;
+        for (int i = 0; i <= num_delta_pocs; i++)
+            if (use_delta_flag[i])
+                num_pics++;
+        if (num_pics > max_dec_pic_buffering_1)
+            return false;
+
         int i;
         int *delta_poc_s0 = delta_poc[idx];
         bool *used_by_curr_pic_s0 = used_by_curr_pic[idx];
@@ -669,8 +677,8 @@ upipe_h265f_stream_parse_short_term_ref_pic_set(struct ubuf_block_stream *s,
         if (num_negative_pics[idx] > max_dec_pic_buffering_1)
             return false;
         num_positive_pics[idx] = upipe_h26xf_stream_ue(s);
-        if (num_positive_pics[idx] + num_negative_pics[idx] >
-            max_dec_pic_buffering_1)
+        if (num_positive_pics[idx] >
+            max_dec_pic_buffering_1 - num_negative_pics[idx])
             return false;
         for (int i = 0, d_poc = 0; i < num_negative_pics[idx]; i++) {
             d_poc -= upipe_h26xf_stream_ue(s) + 1;
@@ -958,6 +966,13 @@ static bool upipe_h265f_activate_sps(struct upipe *upipe, uint32_t sps_id)
         max_dec_pic_buffering_1 = upipe_h26xf_stream_ue(s);
         upipe_h26xf_stream_ue(s); /* max_num_reorder_pics */
         upipe_h26xf_stream_ue(s); /* max_latency_increase */
+    }
+    /* MaxDpbSize is at most 16 (ITU-T H.265 A.4.2) */
+    if (max_dec_pic_buffering_1 >= 16) {
+        upipe_err_va(upipe, "invalid SPS (max_dec_pic_buffering %"PRIu32")",
+                     max_dec_pic_buffering_1 + 1);
+        ubuf_block_stream_clean(s);
+        return false;
     }
 
     upipe_h26xf_stream_ue(s); /* min_luma_coding_block_size */
